@@ -79,7 +79,7 @@ func (s vfC10Step) String() string {
 	case vfC10Sub:
 		return fmt.Sprintf("subscribe(gate=%s)", []string{"none", "AddPresence", "beforeHistory", "logWindow+pub(hist)"}[s.Gate])
 	case vfC10Unsub:
-		return fmt.Sprintf("unsubscribe(gate=%s byServer=%v)", []string{"none", "RemovePresence", "PublishLeave"}[s.Gate], s.ByServer)
+		return fmt.Sprintf("unsubscribe(gate=%s byServer=%v)", []string{"none", "RemovePresence", "PublishLeave", "afterReplyTrace"}[s.Gate], s.ByServer)
 	case vfC10RelOps:
 		return "releaseOps" + []string{"", "(subscribe)", "(unsubscribe)"}[s.Which]
 	case vfC10GapPub:
@@ -132,6 +132,8 @@ func vfC10Gen(rt *rapid.T) vfC10Case {
 	c.End = rapid.SampledFrom([]int{0, 0, 1, 2}).Draw(rt, "end")
 	if c.Positioned && c.Mode != 0 {
 		c.LogGate = rapid.Bool().Draw(rt, "logGate")
+	} else if c.Mode == 0 {
+		c.LogGate = rapid.IntRange(0, 2).Draw(rt, "logGateCmd") == 0 // enables the park right after the unsubscribe reply
 	}
 	n := rapid.IntRange(4, 26).Draw(rt, "nsteps")
 	kinds := []int{vfC10Pub, vfC10Pub, vfC10Pub, vfC10Pub, vfC10Pub, vfC10Pub, vfC10Pub, vfC10JJoin, vfC10JJoin, vfC10JLeave, vfC10JLeave,
@@ -160,6 +162,9 @@ func vfC10Gen(rt *rapid.T) vfC10Case {
 		case vfC10Unsub:
 			s.Gate = rapid.SampledFrom([]int{0, 1, 1, 2, 2}).Draw(rt, "ugate")
 			s.ByServer = rapid.Bool().Draw(rt, "byServer")
+			if c.LogGate && c.Mode == 0 && rapid.IntRange(0, 2).Draw(rt, "afterReply") == 0 {
+				s.Gate, s.ByServer = 3, false
+			}
 			if c.BatchDelayMs > 0 && rapid.IntRange(0, 2).Draw(rt, "batchPending") == 0 {
 				// correlated phrase: a push pending in the channel's batch, a by-server unsubscribe parked in its teardown,
 				// virtual time passing beyond the batch delay, release
@@ -322,12 +327,12 @@ func vfC10Run(t *testing.T, cs vfC10Case, out *vfC10Out, isKnown func(string) bo
 		var subjID atomic.Value
 		subjID.Store("")
 		// Log entries as gates (only when drawn): the handler returns at once unless a gate is armed.
-		var logArm1, logArm2 atomic.Bool
+		var logArm1, logArm2, logArm3 atomic.Bool
 		var gatesP atomic.Pointer[vfGates]
 		if cs.LogGate {
 			cfg.LogLevel = LogLevelTrace
 			cfg.LogHandler = func(e LogEntry) {
-				if !logArm1.Load() && !logArm2.Load() {
+				if !logArm1.Load() && !logArm2.Load() && !logArm3.Load() {
 					return
 				}
 				g := gatesP.Load()
@@ -340,6 +345,10 @@ func vfC10Run(t *testing.T, cs vfC10Case, out *vfC10Out, isKnown func(string) bo
 				case logArm2.Load() && e.Level == LogLevelTrace && e.Message == "-out->":
 					if p, _ := e.Fields["push"].(string); strings.Contains(p, `"subscribe"`) && strings.Contains(p, `"`+ch+`"`) {
 						g.Pass("log2") // inside Client.Subscribe: committed, subscribe push not yet encoded / enqueued
+					}
+				case logArm3.Load() && e.Level == LogLevelTrace && e.Message == "-out->":
+					if r, _ := e.Fields["reply"].(string); strings.Contains(r, `"unsubscribe"`) {
+						g.Pass("log3") // handleUnsubscribe: the unsubscribe reply was just handed over (the unsubscribe must be complete)
 					}
 				}
 			}
@@ -374,6 +383,7 @@ func vfC10Run(t *testing.T, cs vfC10Case, out *vfC10Out, isKnown func(string) bo
 		defer func() { // log gates must be open before the node shuts down
 			logArm1.Store(false)
 			logArm2.Store(false)
+			logArm3.Store(false)
 			w.Gates.ReleaseAll()
 		}()
 		w.broker.Hook = func(op, phase, hch string) error {
@@ -477,7 +487,7 @@ func vfC10Run(t *testing.T, cs vfC10Case, out *vfC10Out, isKnown func(string) bo
 			return len(w.Gates.AnyWaiting()) > 0
 		}
 		opsParked := func() bool {
-			for _, g := range []string{"padd", "hist", "prem", "pleave"} {
+			for _, g := range []string{"padd", "hist", "prem", "pleave", "log3"} {
 				if w.Gates.Waiting(g) > 0 {
 					return true
 				}
@@ -735,6 +745,11 @@ func vfC10Run(t *testing.T, cs vfC10Case, out *vfC10Out, isKnown func(string) bo
 					case s.Gate == 2 && cs.EmitJL, s.Gate == 1 && !cs.Presence && cs.EmitJL:
 						w.Gates.Arm("pleave", 1)
 						gates = []string{"pleave"}
+					case s.Gate == 3 && cs.LogGate && !s.ByServer && !cs.Uni:
+						logArm3.Store(true)
+						w.Gates.Arm("log3", 1)
+						gates = []string{"log3"}
+						out.labels = append(out.labels, "unsubscribe_parked_after_its_reply")
 					}
 				} else {
 					out.labels = append(out.labels, "unsubscribe_issued_while_subscribe_parked")
@@ -770,11 +785,12 @@ func vfC10Run(t *testing.T, cs vfC10Case, out *vfC10Out, isKnown func(string) bo
 					}()
 				}
 				afterLaunch(gates...)
+				logArm3.Store(false)
 			case vfC10RelOps:
 				if opsParked() {
 					out.labels = append(out.labels, "ops_released_midway")
 				}
-				rel := []string{"padd", "hist", "prem", "pleave"}
+				rel := []string{"padd", "hist", "prem", "pleave", "log3"}
 				switch s.Which {
 				case 1:
 					rel = rel[:2]
